@@ -8,7 +8,7 @@ from . import gen_graph as gg
 def expanded(case):
     """shallow copy of the case with a compactly stored graph ({"scale": ...}) expanded; the case object itself (what gets
     recorded as replay / sample) stays compact"""
-    if "scale" in case["g"]:
+    if "scale" in case["g"] or "ladder" in case["g"]:
         return dict(case, g=gg.expand(case["g"]))
     return case
 
